@@ -22,6 +22,8 @@ import (
 
 	"github.com/containerd/nri/pkg/api"
 	"github.com/containerd/nri/pkg/stub"
+	"github.com/containerd/ttrpc"
+	"google.golang.org/protobuf/proto"
 )
 
 // Launch is written (one JSON line per process start) to <reports>/<file name>.launch
@@ -61,6 +63,57 @@ const (
 	// the Synchronize handler answers after SyncSlowDelay
 	BSyncSlow = "syncslow"
 )
+
+// RegAs marks a probe that registers under an identity of its own instead of the one it was launched with: the file
+// name contains "regas" followed by dot-separated parts "i<index>" and / or "n<name>", e.g. "10-regas.i90.nother"
+// (declares index 90, name other), "10-regas.i9" (malformed index), "10-regas.n" (empty name).  Everything else
+// is the well-behaved probe: RegAs is NOT one of the failure modes of Behaviour.
+const RegAs = "regas"
+
+// Declared returns the name and index a probe with this file name puts into its RegisterPlugin request
+// (ok = false: it registers what the stub took from its environment).
+func Declared(file string) (name, idx string, setName, setIdx, ok bool) {
+	i := strings.Index(file, RegAs)
+	if i < 0 {
+		return
+	}
+	for _, part := range strings.Split(file[i+len(RegAs):], ".") {
+		switch {
+		case strings.HasPrefix(part, "i"):
+			idx, setIdx, ok = part[1:], true, true
+		case strings.HasPrefix(part, "n"):
+			name, setName, ok = part[1:], true, true
+		}
+	}
+	return
+}
+
+// declareAs makes the real stub's registration carry another identity: a ttrpc client interceptor rewrites the
+// RegisterPlugin request on its way out (the stub itself refuses an empty name and cannot be given a second one).
+func declareAs(file string) (stub.Option, bool) {
+	name, idx, setName, setIdx, ok := Declared(file)
+	if !ok {
+		return nil, false
+	}
+	ic := func(ctx context.Context, req *ttrpc.Request, resp *ttrpc.Response, _ *ttrpc.UnaryClientInfo, invoke ttrpc.Invoker) error {
+		if req.Method == "RegisterPlugin" {
+			var r api.RegisterPluginRequest
+			if err := proto.Unmarshal(req.Payload, &r); err == nil {
+				if setName {
+					r.PluginName = name
+				}
+				if setIdx {
+					r.PluginIdx = idx
+				}
+				if b, err := proto.Marshal(&r); err == nil {
+					req.Payload = b
+				}
+			}
+		}
+		return invoke(ctx, req, resp)
+	}
+	return stub.WithTTRPCOptions([]ttrpc.ClientOpts{ttrpc.WithUnaryClientInterceptor(ic)}, nil), true
+}
 
 // SyncSlowDelay is how long a syncslow probe takes to answer Synchronize.
 const SyncSlowDelay = 300 * time.Millisecond
@@ -194,6 +247,9 @@ func Main() {
 	if p.beh == BHangLater {
 		// without a close handler the stub exits the process when its connection goes away
 		opts = append(opts, stub.WithOnClose(func() {}))
+	}
+	if o, ok := declareAs(file); ok {
+		opts = append(opts, o)
 	}
 	st, err = stub.New(p, opts...)
 	p.st = st
